@@ -38,6 +38,9 @@ def check_spec(spec, labels=()):
     case = {'spec': spec, 'labels': list(labels)}
     nonaffine = any(c['dep'] == 'pc' for c in spec['countries'])
     r = topo.run(spec)
+    msg = topo.probe_regression(spec, r)
+    if msg:
+        return 'probe-breaks-model', False, [core.violation('read-only-lookup-changes-outcome', msg, case)], 0, 0
     if r.stage == 'build':
         return 'build-error:%s' % type(r.error).__name__, False, [], 0, 0
     if r.error is not None and type(r.error).__name__ != 'ConvergenceError':
